@@ -228,8 +228,24 @@ def run_scenario(mod, sc: dict, keep: bool = False) -> Outcome:
         except (SimCrash, SimLivelock) as e:
             # a crash / livelock that escaped the property's own handling
             out.error = f"escaped {type(e).__name__}: {e}\n{traceback.format_exc()}"
-        except Exception as e:  # noqa: BLE001 - harness error, reported apart
-            out.error = f"{type(e).__name__}: {e}\n{traceback.format_exc()}"
+        except Exception as e:  # noqa: BLE001
+            # An exception nobody classified.  If it was raised INSIDE the library (innermost frames in the tree
+            # under test) on a scenario that is in-domain by construction, the call did not deliver what the
+            # property promises for every input: a violation, replayable like any other.  Raised in harness code
+            # (or a simulated I/O error that escaped): a harness error, reported apart.
+            repo = os.path.realpath(os.environ.get("VERIF_REPO", "/repo")) + os.sep
+            frames = traceback.extract_tb(e.__traceback__)
+            inner = frames[-1].filename if frames else ""
+            lib = [f for f in frames if os.path.realpath(f.filename).startswith(repo)]
+            simulated = isinstance(e, OSError) and "simulated" in str(e)
+            if lib and not simulated and (os.path.realpath(inner).startswith(repo) or "site-packages" in inner or inner.startswith("<")):
+                where = f"{os.path.basename(lib[-1].filename)}:{lib[-1].name}"
+                out.violation = f"{mod.ID}/library-raised/{where}/{type(e).__name__}"
+                out.detail = repr(e)[:500]
+                out.info = {"api": where, "unclassified": True, "traceback": [f"{os.path.basename(f.filename)}:{f.lineno}:{f.name}" for f in frames[-6:]]}
+                ctx.log("VIOLATION", out.violation)
+            else:
+                out.error = f"{type(e).__name__}: {e}\n{traceback.format_exc()}"
         out.digest = ctx.digest()
         out.signature = ctx.signature()
         out.probes = dict(ctx.probes)
